@@ -12,6 +12,7 @@ CONSTANTS
   InitScopeSets = {{}, {"all"}}
   HiddenChoices = {{}}
   ActScopes = {"mod"}
+  RepKinds = {"ReadOk", "ReadRaise", "ReadInvalid", "AssignInvalid", "Activate", "Deactivate", "Drop"}
   MaxNow = 3
 CONSTRAINT TimeBound
 INVARIANT TypeOK
